@@ -2071,6 +2071,7 @@ def preprocess_file(
     pp_defs: dict = None,
     include_dirs: set = None,
     debug: bool = False,
+    include_stack: list = None,
 ):
     # Look for and mark excluded preprocessor paths in file
     # Initial implementation only looks for "if" and "ifndef" statements.
@@ -2186,6 +2187,10 @@ def preprocess_file(
         include_dirs = set()
     if file_path is not None:
         include_dirs.add(os.path.abspath(os.path.dirname(file_path)))
+    # Files currently being preprocessed, to break circular #include chains
+    include_stack = [] if include_stack is None else include_stack
+    if file_path is not None:
+        include_stack = include_stack + [os.path.abspath(file_path)]
     pp_skips = []
     pp_defines = []
     pp_stack = []
@@ -2343,7 +2348,9 @@ def preprocess_file(
                 if os.path.isfile(include_path_tmp):
                     include_path = os.path.abspath(include_path_tmp)
                     break
-            if include_path is not None:
+            if include_path in include_stack:
+                log.debug("!!! Skipping circular include of '%s'", include_path)
+            elif include_path is not None:
                 try:
                     include_file = FortranFile(include_path)
                     err_string, _ = include_file.load_from_disk()
@@ -2355,6 +2362,7 @@ def preprocess_file(
                             pp_defs=defs_tmp,
                             include_dirs=include_dirs,
                             debug=debug,
+                            include_stack=include_stack,
                         )
                         log.debug("!!! Completed parsing include file\n")
 
